@@ -155,6 +155,23 @@ func c04Record(rec *evid.Recorder, c c04Case) bool {
 	return false
 }
 
+// TestC04_ExhaustiveCustom: short strings over the characters that matter for the user-configured tokenizers.
+func TestC04_ExhaustiveCustom(t *testing.T) {
+	rec := evid.New("C04", "TestC04_ExhaustiveCustom", "C04", c04Rule)
+	rec.Exhaustive = true
+	rec.DupFree = true
+	defer finish(t, rec)
+	alpha := []string{"a", ".", "=", ":", "~", "-", ">", "<", "≠", "/", "*", "\n", " ", "。", "，", "«", "»", "'", "1"}
+	maxLen := pick(4, 5)
+	rec.Bounds = "all strings of length 0.." + itoa(maxLen) + " over " + strings.Join(alpha, "") + " x the 4 user-configured tokenizers (extra symbols with unregistered prefixes, C++ comments in the expression tokenizer, re-mapped blank / word ranges, non-Latin CSV separators and quotes)"
+	enumStrings(alpha, maxLen, true, func(parts []string) {
+		in := runesOf(parts)
+		for _, k := range tokKindsExt[4:] {
+			c04Record(rec, c04Case{k, in})
+		}
+	})
+}
+
 func TestC04_Exhaustive(t *testing.T) {
 	maxLen := pick(4, 5)
 	rec := evid.New("C04", "TestC04_Exhaustive", "C04", c04Rule)
@@ -252,7 +269,7 @@ func TestC04_Rapid(t *testing.T) {
 	rec := evid.New("C04", "TestC04_Rapid", "C04", c04Rule+"; rapid strings of up to 64 symbols")
 	defer finish(t, rec)
 	runRapid(t, pick(30000, 250000), 4, func(rt *rapid.T) {
-		c := c04Case{rapid.SampledFrom(tokKinds).Draw(rt, "tok"), genTokInput(rt, c04Alphabet, 64)}
+		c := c04Case{rapid.SampledFrom(tokKindsExt).Draw(rt, "tok"), genTokInput(rt, c04Alphabet, 64)}
 		if c04Record(rec, c) {
 			rt.Fatalf("C04 violated for %+v", c)
 		}
@@ -267,7 +284,7 @@ func FuzzC04(f *testing.F) {
 		if len(s) > 1<<16 {
 			t.Skip()
 		}
-		c := c04Case{tokKinds[int(k)%4], string([]rune(s))}
+		c := c04Case{tokKindsExt[int(k)%len(tokKindsExt)], string([]rune(s))}
 		if fl := checkC04(c); fl != nil {
 			if _, known := evid.IsKnown("C04", fl.Sig); !known {
 				t.Fatalf("VIOLATION-SIG %s :: %s :: %s", fl.Sig, fl.Msg, jsonStr(c))
